@@ -27,6 +27,7 @@ def _observers():
 def run(ctx):
     obs = _observers() if ctx.extra.get('model_available', True) else []
     session.run_sessions(ctx, ctx.scale(250, 6000), ctx.scale(14, 40), ['inv'], observers=obs)
+    session.run_churn(ctx, ctx.scale(100, 1500), ctx.scale(50, 80), ['inv'], observers=obs)   # small blocks: split/merge/redistribution underneath
     session.finish_observers(ctx, obs)
     slicegrid.run(ctx, ['inv'])
     import slotgrid
